@@ -1302,3 +1302,31 @@ def m_first_last(eng, call, args):
     from .sym import index as sym_index
     e = sym_index(v, Int(0)) if which == "first" else sym_index(v, binop("Sub", n, Int(1), "usize"))
     return two_way("std::option::Option", [(0, "None", [], [(c, "eq", 1)]), (1, "Some", [mk("refv", e)], [(c, "eq", 0)])])
+
+
+@model("std::collections::hash_map::Entry::<'a, K, V>::or_default", "std::collections::hash_map::Entry::<'a, K, V>::or_insert",
+       "std::collections::hash_map::Entry::<'a, K, V>::or_insert_with",
+       "std::collections::btree_map::Entry::<'a, K, V, A>::or_default", "std::collections::btree_map::Entry::<'a, K, V, A>::or_insert",
+       "std::collections::btree_map::Entry::<'a, K, V, A>::or_insert_with")
+def m_entry_or(eng, call, args):
+    """&mut V for the key of the entry, inserting the default / given value when vacant"""
+    e = args[0]
+    meth = call["norm_names"][0].split("::")[-1]
+    mp = k = None
+    if e.op == "enum":
+        for a in e.args[1]:
+            if a[2] and a[2][0].op == "agg" and a[2][0].args[0] in ("occupied", "vacant"):
+                mp, k = a[2][0].args[1], a[2][0].args[2]
+    if mp is None or mp.op != "ref":
+        eng.note("Entry::%s on an unknown entry" % meth)
+        return mk("ext", "entry_" + meth, *args)
+    init = mk("vec_new") if meth == "or_default" else (args[1] if meth == "or_insert" else eng.invoke_value(call, args[1], [], tag="#oiw"))
+    loc, path = mp.args[0], mp.args[1]
+    cur = eng.load(call["state"], loc, path + (("mapval", k),))
+    # the slot holds the existing value or the freshly inserted default
+    slot = eng.join_values(("entry_or", call["site"]), {"occupied": cur, "vacant": init if init is not None else mk("vec_new")})
+    old = eng.load(call["state"], loc, path)
+    eng.store(call["state"], loc, path, mk("map_entry_or", old, k))
+    eng.store(call["state"], loc, path + (("mapval", k),), slot)
+    call["entry_or"] = (mp, k)
+    return mk("ref", loc, path + (("mapval", k),))
